@@ -414,7 +414,7 @@ func (c *Compiler) compileProgram(node *ast.Program) error {
 				return err
 			}
 			if i < count-1 {
-				if stmt.IsExpression() {
+				if leavesValue(stmt) {
 					c.emit(op.PopTop)
 				}
 			}
@@ -422,10 +422,24 @@ func (c *Compiler) compileProgram(node *ast.Program) error {
 		// Guarantee that the program evaluates to a value
 		lastStatement := statements[count-1]
 		if !lastStatement.IsExpression() {
+			if leavesValue(lastStatement) {
+				c.emit(op.PopTop)
+			}
 			c.emit(op.Nil)
 		}
 	}
 	return nil
+}
+
+// leavesValue reports whether the code compiled for a statement leaves a value
+// on the stack. Expressions do, and so does a named function statement (which
+// is stored under its name and also evaluates to the function).
+func leavesValue(stmt ast.Node) bool {
+	if stmt.IsExpression() {
+		return true
+	}
+	fn, ok := stmt.(*ast.Func)
+	return ok && fn.Name() != nil
 }
 
 func (c *Compiler) compileBlock(node *ast.Block) error {
@@ -445,7 +459,7 @@ func (c *Compiler) compileBlock(node *ast.Block) error {
 				return err
 			}
 			if i < count-1 {
-				if stmt.IsExpression() {
+				if leavesValue(stmt) {
 					c.emit(op.PopTop)
 				}
 			}
@@ -453,6 +467,9 @@ func (c *Compiler) compileBlock(node *ast.Block) error {
 		// Guarantee that the block evaluates to a value
 		lastStatement := statements[count-1]
 		if !lastStatement.IsExpression() {
+			if leavesValue(lastStatement) {
+				c.emit(op.PopTop)
+			}
 			c.emit(op.Nil)
 		}
 	}
@@ -472,7 +489,7 @@ func (c *Compiler) compileFunctionBlock(node *ast.Block) error {
 			return err
 		}
 		if i < count-1 {
-			if stmt.IsExpression() {
+			if leavesValue(stmt) {
 				c.emit(op.PopTop)
 			}
 		}
